@@ -8,7 +8,7 @@ RULE = ("seeded random call histories (3-12 calls) over 1-3 live objects in one 
         "configurators, including hash-/eq-equal twin configurators (same ids, integer leaf bounds of equal sum); calls: "
         "evaluate / evaluate_propositions / assume (dictionaries naming sub-proposition ids in ~30%), reduce, negate, errors, "
         "to_json, to_b64, to_ge_polyhedron, flatten, solve, and for configurators ge_polyhedron, default_prios, leafs, select, "
-        "add; after every call: result vs the model's pure function of the receiver's current snapshot, result vs the same "
+        "add (a later select / solve / evaluate on the same object reuses the ids of an earlier one with other values in >= 30%); after every call: result vs the model's pure function of the receiver's current snapshot, result vs the same "
         "call on a freshly built identical object, and structural snapshots of every live object vs before the call; "
         "non-trivial = the history has a call naming a compound id, or a twin, or >= 2 objects")
 ASSUMPTIONS = ["models are validated and reference-free", "the object returned by add() is deep-copied before it joins the live set",
@@ -19,13 +19,24 @@ TRUSTED = ["for calls the Lean model does not cover (errors, to_json, to_b64, so
 F_C09A = "F-C09a"
 
 
+import os as _os
+_DEVNULL = _os.open(_os.devnull, _os.O_WRONLY)
+
+
 def safe(f):
+    """run f; an exception becomes a value.  puan-rspy panics (a pre-fixed sub-proposition makes to_ge_polyhedron index out
+    of bounds) print a Rust backtrace banner on fd 2 before they surface as a Python exception — silenced here"""
+    saved = _os.dup(2)
+    _os.dup2(_DEVNULL, 2)
     try:
         return f()
     except (KeyboardInterrupt, SystemExit):
         raise
     except BaseException as e:      # pyo3 panics derive from BaseException
         return {"exception": type(e).__name__}
+    finally:
+        _os.dup2(saved, 2)
+        _os.close(saved)
 
 
 def jsonable(x):
@@ -95,7 +106,7 @@ def model_op(t, call):
     return None
 
 
-def gen_call(rng, o, t, is_cfg):
+def gen_call(rng, o, t, is_cfg, prev=None):
     lv = leaves_of(t)
     kinds = ["evaluate", "evalprops", "assume", "reduce", "negate", "errors", "to_json", "to_b64", "encode", "flatten", "solve"]
     if is_cfg:
@@ -110,10 +121,31 @@ def gen_call(rng, o, t, is_cfg):
         c["active"] = rng.random() < 0.5
     elif k == "solve":
         c["objective"] = {a: rng.randint(-3, 3) for a in rng.sample(sorted(lv), min(2, len(lv)))}
+        old = [p for p in (prev or []) if p["k"] == "solve" and p["objective"]]
+        if old and rng.random() < 0.5:
+            c["objective"] = {a: w + rng.choice([-2, -1, 1, 2]) for a, w in rng.choice(old)["objective"].items()}
     elif k == "select":
-        c["prio"] = {a: rng.choice([1, -1, 2, 3]) for a in rng.sample(sorted(lv), min(rng.randint(0, 2), len(lv)))}
+        c["prio"] = {a: rng.choice([1, -1, 2, 3]) for a in rng.sample(sorted(lv), min(rng.randint(0, 3), len(lv)))}
         c["only_leafs"] = rng.random() < 0.3
-    elif k == "add":
+        old = [p for p in (prev or []) if p["k"] == "select" and p["prio"]]
+        if old and rng.random() < 0.6:
+            # the same ids as an earlier select on this object, other weights (a result memoised on the ids alone would show)
+            base = rng.choice(old)["prio"]
+            c["prio"] = {a: rng.choice([x for x in [1, -1, 2, 3, -2] if x != w]) if rng.random() < 0.7 else w for a, w in base.items()}
+    if k in ("evaluate", "evalprops", "assume"):
+        old = [p for p in (prev or []) if p["k"] in ("evaluate", "evalprops", "assume") and p["I"]]
+        if old and rng.random() < 0.3:
+            # same ids as an earlier interpretation, other values
+            base = rng.choice(old)["I"]
+            cids = set(compound_ids(t))
+            I2 = {}
+            for a, b in base.items():
+                if a in cids:
+                    I2[a] = rng.choice([[0, 0], [1, 1], [0, 1]])
+                elif a in lv:
+                    x = rng.randint(*lv[a]); I2[a] = [x, x]
+            c["I"] = I2
+    if k == "add":
         names = sorted(lv)
         c["rule"] = {"c": rng.choice(["Any", "All", "AtMost"]), "args": [{"c": "str", "id": x} for x in rng.sample(names, min(2, len(names)))],
                      "id": f"ADD{rng.randint(1, 99)}"}
@@ -206,7 +238,7 @@ def do_case(ctx, inp):
 
 def run(ctx):
     rng = ctx.rng
-    n = (120 if ctx.quick else 1500) * (3 if ctx.search else 1)
+    n = (400 if ctx.quick else 3000) * (3 if ctx.search else 1)
     for _ in range(n):
         objs, twin = [], False
         r = rng.random()
@@ -226,7 +258,7 @@ def run(ctx):
         calls = []
         for _ in range(rng.randint(3, 12)):
             i = rng.randrange(len(objs))
-            c = gen_call(rng, live[i], snaps[i], snaps[i]["cls"] == "Stingy")
+            c = gen_call(rng, live[i], snaps[i], snaps[i]["cls"] == "Stingy", prev=[p for p in calls if p["obj"] == i])
             c["obj"] = i
             calls.append(c)
         if twin:   # make sure both twins' polyhedra are read
